@@ -9,7 +9,7 @@ COMMON_TRUSTED = [
     'the CPython cross-check and the seeded-mutant self-test',
     'z3 4.x/5.1 (in-process) and, in the thorough tier, cvc5 1.0.3 and z3 4.8.12 on the SMT-LIB2 dumps',
     'CPython 3.12 semantics as encoded (DESIGN 3.2): int = mathematical Int, float = IEEE binary64 RNE, left-to-right evaluation, '
-    'exception propagation; exception message text is not evaluated',
+    'exception propagation; the argument expressions of exception constructors are evaluated (they can raise), the message text itself is not kept',
 ]
 
 
